@@ -1319,8 +1319,17 @@ class TangentVector(PointPair):
             The angle between `self` and `other`.
 
         """
-        v1 = project_to_hyperboloid(self.point, self.normalized().vector)
-        v2 = project_to_hyperboloid(self.point, other.normalized().vector)
+        # (point, vector) and (-point, -vector) are the same tangent
+        # vector: measure each direction against a future-pointing
+        # basepoint, so the angle does not depend on the sign of the
+        # coordinates
+        sign1 = np.where(self.point[..., :1] < 0, -1, 1)
+        sign2 = np.where(other.point[..., :1] < 0, -1, 1)
+
+        v1 = project_to_hyperboloid(self.point,
+                                    sign1 * self.normalized().vector)
+        v2 = project_to_hyperboloid(self.point,
+                                    sign2 * other.normalized().vector)
 
         product = utils.apply_bilinear(v1, v2, self.minkowski)
 
